@@ -81,7 +81,7 @@ const giantDecl = 1 << 20
 // craftedCompacts lists the replacements tried for one compact integer of value
 // v: the same value in every wider (non-canonical) mode, other values at the
 // mode boundaries, a declared 1 MiB-3, and the unallocatable 2^62 / 2^64-1.
-func craftedCompacts(v uint64) []crafted {
+func craftedCompacts(v uint64, large bool) []crafted {
 	var out []crafted
 	add := func(n string, b []byte) { out = append(out, crafted{n, b}) }
 	// same value, non-canonical (wider than necessary) encodings
@@ -103,10 +103,13 @@ func craftedCompacts(v uint64) []crafted {
 	add("noncanon-big9-leading-zero", cBig(v, 9))
 	add("noncanon-big16-leading-zero", cBig(v, 16))
 	// other values at the mode boundaries, each in its canonical mode
-	for _, o := range []uint64{0, 1, 63, 64, 16383, 16384, v + 1, v - 1, 1<<20 - 3} {
+	for _, o := range []uint64{0, 1, 63, 64, 16383, 16384, v + 1, v - 1} {
 		if o != v && o < 1<<62 {
 			add(fmt.Sprintf("value-%d", o), cCanonical(o))
 		}
+	}
+	if large {
+		add("value-1MiB-3", cCanonical(1<<20-3))
 	}
 	add("value-2^62", cCanonical(1<<62))
 	add("value-2^64-1", cCanonical(^uint64(0)))
@@ -169,8 +172,11 @@ func forEachMutant(k *kernel.K, cfg mutCfg, f func(m mutant)) {
 			}
 			pos = sel
 		}
-		for _, p := range pos {
-			for _, cr := range craftedCompacts(p.val) {
+		// the declared mebibyte goes to the first and to two tape-chosen positions
+		// (a decoder that preallocates touches that much memory on every hit)
+		largeAt := map[int]bool{0: true, k.Choose(len(pos), "largepos"): true, k.Choose(len(pos), "largepos"): true}
+		for i, p := range pos {
+			for _, cr := range craftedCompacts(p.val, largeAt[i]) {
 				m := make([]byte, 0, len(enc)+len(cr.b))
 				m = append(m, enc[:p.off]...)
 				m = append(m, cr.b...)
